@@ -64,6 +64,8 @@ def expected(lib, form, ts, latent):
         return cal.dom_after(ts, p[0])
     if c == "doy":
         return cal.doy_on_or_after(ts, p[0], p[1])
+    if c == "dowdom":
+        return cal.dowdom_candidates(ts, p[0], p[1])[0]
     if c == "pod":
         return cal.pod_day(ts, p[0], lib["types"].pod_hours[p[0]][0])
     if c == "abs":
@@ -104,9 +106,11 @@ def _unlimited(lib, text, ts, latent):
         return None
 
 
-def _same(got, want, form):
+def _same(got, want, form, ts=None):
     if got == want:
         return True
+    if form["c"] == "dowdom" and ts is not None:
+        return got in cal.dowdom_candidates(ts, form["p"][0], form["p"][1])
     # a clock time given to the hour only may leave the minute unset
     if form["c"] == "clock" and got and got[0] == "T" and want[5] == 0 and got[5] is None:
         g = list(got)
@@ -256,7 +260,7 @@ def execute(case):
                     viol(prop + ".value", form["t"] + "|raised:" + exc.split(":")[0],
                          "event %d: %r at %s raised %s" % (i, form["s"], instant, exc))
                     continue
-                if not _same(got, want, form):
+                if not _same(got, want, form, instant):
                     kind = _kind(got, want) if form["c"] != "clock" else _clock_kind(got, want)
                     # mechanism probe: is the right reading produced but lost by the default
                     # stack-depth limit (max_stack_depth=10)?
